@@ -229,7 +229,7 @@ def staticCallsT (st : StructTable) (insOf : String → List Param)
       let ixs := ci.getD (false, [])
       -- a `disabled` modifier on a map call is not covered
       let ok := ci.isSome && !ixs.2.isEmpty && splitsStaticT st self sib (insOf c.callee) c ixs &&
-        c.disabled.isNone && noMergeOf c.id r.1.exp
+        c.disabled.isNone && pushOk c.id ixs.1 r.1.exp
       if ci.isNone && (runtimeMode st self sib (insOf c.callee) c).isSome then
         -- run-time size: the outputs are a `merge` over the call (resolve_pipeline.go / resolve_stage.go)
         let m := (runtimeMode st self sib (insOf c.callee) c).getD false
